@@ -41,8 +41,9 @@ def hasMutualRecursiveScc (p : Program) : Bool :=
 /-- a head that also has stored facts (its facts are shadowed by the derived result). -/
 def headHasFacts (p : Program) (edb : DB) : Bool := (heads p).any (fun h => !(edb.get h).isEmpty)
 
-/-- two positive atoms of one rule over the same relation with a wildcard in the same position
-    (both columns get the schema name `_ph_<rel>_<i>` and are joined). -/
+/-- two positive atoms of one rule over the same relation with a wildcard in the same position.
+    Repaired (fixes/C01-same_relation_wildcard_position.diff): no longer a class of C01; the
+    predicate is still referenced by Drv/C06 until its owner drops the class there. -/
 def sameRelWildcard (r : Rule) : Bool :=
   let ws (a : Atom) : List Nat := (List.range a.args.length).filter (fun i => a.args.getD i (.var "") == .wild)
   let rec go : List Atom → Bool
@@ -69,8 +70,7 @@ def aggNotLast (r : Rule) : Bool :=
 
 /-- the optimizer moves the rule's comparison filters onto the right input of a join and reads a
     variable from the wrong stored column (`Engine.pushPlan`). -/
-def pushdownShift (r0 : Rule) : Bool :=
-  let r := quirkWild r0
+def pushdownShift (r : Rule) : Bool :=
   match buildCmps r.posVars r.cmps with
   | some (cols, fs) =>
     if !cols.isEmpty then false else
@@ -108,10 +108,8 @@ def lastHeadMultiClauseWithSip (cfg : Cfg) (p : Program) : Bool :=
 def classify (cfg : Cfg) (p : Program) (_edb : DB) (_want : String) : String :=
   if hasMutualRecursiveScc p then "has_mutual_recursive_scc"
   else if queryRel p != answeredRel p then "last_rule_head_not_last_head"
-  else if p.any sameRelWildcard then "same_relation_wildcard_position"
   else if p.any droppedEquality then "equality_on_computed_variable"
   else if p.any aggNotLast then "aggregate_not_last_in_head"
-  else if (nonRecRules p).any pushdownShift then "filter_pushdown_key_shift"
   else if unionWithJoinUnderJoinPlanning cfg p then "union_with_join_under_join_planning"
   else if lastHeadMultiClauseWithSip cfg p then "last_head_multi_clause_with_sip"
   else if repeatedVarUnderJoinPlanning cfg p then "repeated_var_in_scan_under_join_planning"
